@@ -192,7 +192,7 @@ def run_case(case, rep, record=True):
                 h.reset()
                 check_mask(h, rep, "after reset")
                 continue
-            if op[0] in ("g", "o"):
+            if op[0] in ("g", "o", "b"):
                 continue
             act = h.choose(op)
             rec = h.exec_step(act, op[-2], op[-1])
